@@ -173,8 +173,8 @@ PROPS = {
         level_note="Trusts harness/ref/walk (JPEG/JPEG-LS/JPEG 2000 walkers, packet reader validated on the 14 third-party OpenJPH streams of /repo/test-data) and ref/rleref; they are written from the standards and share no code with /repo. The packet reader does not model streams with more than one precinct above resolution 0 (the library's precinct layout is not T.800's) and is inconclusive on multi-tile streams that divide under neither canvas nor tile-local anchoring (open findings KF-C19-1/2).",
         rule=("rapid-generated (encoder, image, parameters). Non-trivial: the entropy-coded part contains at least one 0xFF byte (stuffing / marker avoidance exercised) or the codestream has >= 2 tile-parts (RLE: always). Distinct = hash of the case."),
         assumptions=COMMON_ASSUME,
-        quick=dict(shards=16, checks=300, extra=[dict(run="TestPackets", shards=16)], timeout=900),
-        thorough=dict(shards=16, checks=48000, extra=[dict(run="TestPackets", shards=16)], timeout=3400, fuzztime=180),
+        quick=dict(shards=16, checks=300, extra=[dict(run="TestPackets", shards=16), dict(run="TestTails", shards=16)], timeout=900),
+        thorough=dict(shards=16, checks=48000, extra=[dict(run="TestPackets", shards=16), dict(run="TestTails", shards=16)], timeout=3400, fuzztime=180),
     ),
     "C10": dict(
         pkg="c10",
